@@ -699,3 +699,27 @@ GUARDS = {
     "lexer-whitespace-ascii": guard_lexer_whitespace_ascii,
     "range-end-clamped": guard_range_end_clamped,
 }
+
+
+def rule_G1l(ctx):
+    """No recursion through the list look-up functions: a key / index is looked for among the items of the list (and of the lists a
+    concatenation is made of) - a cycle through these functions means items that are themselves collections are searched too."""
+    F = ctx.F
+    r = RuleResult("G1l", "look-ups are shallow: no recursive call cycle runs through the runtime's list look-up functions (access / index helpers): a key is searched among the items, never inside an item")
+    _, run = cg.entry_sets(F)
+    g = cg.get(ctx)
+    reach = g.reachable(run)
+    comps = g.sccs(reach)
+    def is_lookup(p):
+        f = F.fns.get(p)
+        return f is not None and f["crate"] == "garnish_lang_runtime" and "::runtime::list::" in p
+    lookups = sorted(p for p in reach if is_lookup(p) and "::{closure" not in p)
+    r.floor("list look-up functions in the runtime", len(lookups), 8)
+    for p in lookups:
+        r.examine(p, True, None)
+    for comp in comps:
+        hit = [m for m in comp if is_lookup(m)]
+        if hit:
+            rep = sorted(m for m in hit if "::{closure" not in m)[0] if any("::{closure" not in m for m in hit) else hit[0]
+            r.finding(rep, "lookup-recursion", loc(F.fns[rep]["mir"]["blocks"][0]["term"]), "recursive call cycle through the list look-up functions {%s}: the per-item check calls back into a look-up, so an item that is itself a list / slice is searched too - a key held by a nested list is 'found' through a concatenation although the list itself reports it absent" % ", ".join(comp))
+    return r
